@@ -55,7 +55,7 @@ def gen_actions(rng, allow_raise=True):
         else:
             acts.append(('print-file-stdout', rng.choice(TEXTS)))
     if allow_raise and rng.random() < 0.12:
-        acts.append(rng.choice([('raise',), ('exit', 'raise SystemExit'), ('exit', 'import sys\nsys.exit(2)'), ('exit', 'quit()')]))
+        acts.append(rng.choice([('raise',), ('exit', 'raise SystemExit'), ('exit', 'import sys\nsys.exit(2)'), ('exit', 'quit()'), ('close-stdout',)]))
     return acts
 
 
@@ -96,6 +96,10 @@ def actions_to_code(acts, ind=''):
             lines.append("raise ValueError('planned')")
         elif a[0] == 'exit':
             lines.extend(a[1].split('\n'))
+        elif a[0] == 'close-stdout':
+            # the last thing the program does is close the stream it was writing to: what it wrote before that was written
+            lines.append('import sys')
+            lines.append('sys.stdout.close()')
     if not lines:
         lines.append('_quiet = 1')
     return '\n'.join(ind + l for l in lines)
@@ -124,7 +128,7 @@ def simulate(acts, queue):
             consumed.append(v)
             if echo:
                 out.append('read ' + repr(v) + '\n')
-        elif a[0] in ('raise', 'exit'):
+        elif a[0] in ('raise', 'exit', 'close-stdout'):
             break
     return ''.join(out), consumed
 
@@ -140,15 +144,23 @@ def validate_snippet(ctx, acts):
         print(prompt)
         return qq.pop(0) if qq else '0'
     b = dict(vars(builtins)); b['input'] = fake_input
-    buf = io.StringIO()
-    with contextlib.redirect_stdout(buf):
+    class Keeps(io.StringIO):
+        def close(self):
+            self.kept = self.getvalue()
+            super().close()
+    buf = Keeps()
+    saved = sys.stdout
+    sys.stdout = buf
+    try:
         try:
             exec(compile(actions_to_code(acts), 'snippet.py', 'exec'), {'__builtins__': b, '__name__': '__main__', 'ask': fake_input})
         except (ValueError, SystemExit):
             pass
+    finally:
+        sys.stdout = saved
     ctx.count('snippets_validated')
-    if buf.getvalue() != want:
-        raise AssertionError('harness model of a snippet is wrong: %r vs %r for %r' % (buf.getvalue(), want, acts))
+    if (buf.kept if buf.closed else buf.getvalue()) != want:
+        raise AssertionError('harness model of a snippet is wrong: %r vs %r for %r' % ((buf.kept if buf.closed else buf.getvalue()), want, acts))
 
 
 class Model:
